@@ -221,7 +221,7 @@ impl<S: ClientStream> AgentClient<S> {
         let mut keys = Vec::new();
         let resp = self.stream.request(&buf)?;
 
-        if resp[0] == msg::IDENTITIES_ANSWER {
+        if resp.first() == Some(&msg::IDENTITIES_ANSWER) {
             let mut r = resp.reader(1);
             let n = r.read_u32()?;
 
